@@ -323,7 +323,36 @@ func request(acc accept) vkit.LogicalRequest {
 	return lr
 }
 
+const kfGRPCPanic = "C12-panic-answered-with-bare-grpc-error-on-envoy-entry-point"
+
+// grpcPanicIsBareError: pinned reproduction of the listed finding - a mechanism panics with a plain string; the Envoy
+// gRPC service answers with the gRPC error Internal instead of a check response.
+func grpcPanicIsBareError() bool {
+	vkit.InjectedError.Lock()
+	vkit.InjectedError.Err = errors.New("boom")
+	vkit.InjectedError.Panic = true
+	vkit.InjectedError.Unlock()
+
+	defer func() {
+		vkit.InjectedError.Lock()
+		vkit.InjectedError.Panic = false
+		vkit.InjectedError.Unlock()
+	}()
+
+	w, err := buildWorld(overrides{}, config.DecisionMode, nil, nil)
+	if err != nil {
+		return false
+	}
+	defer w.Close()
+
+	resp, _ := w.Send(vkit.EntryGRPC, request(accept{}), nil)
+
+	return resp.GRPCErr != nil && strings.Contains(resp.GRPCErr.Error(), "code = Internal")
+}
+
 func TestInjectedErrorsMapToTheirClass(t *testing.T) {
+	exclGRPCPanic := vkit.Known(kfGRPCPanic, grpcPanicIsBareError)
+
 	rapid.Check(t, func(t *rapid.T) {
 		ge := genError(t, 3)
 		o := genOverrides(t)
@@ -340,8 +369,18 @@ func TestInjectedErrorsMapToTheirClass(t *testing.T) {
 			onError = []config.MechanismConfig{{"error_handler": "eh"}}
 		}
 
+		// the mechanism may also panic with that value: whatever it is, this is an internal error ("anything else")
+		// the mechanism may also panic with that value. Which kind a recovered panic has is not stated anywhere (the HTTP
+		// services classify an error value used as panic value by its kind); asserted is what the statement says
+		// for every failure: never a success status, and the same answer from all entry points.
+		panics := rapid.IntRange(0, 7).Draw(t, "mechanismPanics") == 0
+		if panics {
+			ge.Desc = "panic(" + ge.Desc + ")"
+		}
+
 		vkit.InjectedError.Lock()
 		vkit.InjectedError.Err = ge.Err
+		vkit.InjectedError.Panic = panics
 		vkit.InjectedError.Unlock()
 
 		var kinds []string
@@ -374,6 +413,14 @@ func TestInjectedErrorsMapToTheirClass(t *testing.T) {
 				t.Fatalf("harness: %v", err)
 			}
 
+			if exclGRPCPanic && panics && entry == vkit.EntryGRPC && resp.GRPCErr != nil && strings.Contains(resp.GRPCErr.Error(), "code = Internal") && !resp.Positive && resp.Hits == 0 {
+				// listed finding: exactly this answer (a bare gRPC error Internal, nothing allowed, nothing forwarded) for a
+				// panicking mechanism on the Envoy entry point; the HTTP entry points are still compared with each other
+				vkit.S.Exclude(kfGRPCPanic)
+
+				continue
+			}
+
 			results[entry] = resp
 
 			// (1) never a success status; 3xx only from a redirect
@@ -383,6 +430,7 @@ func TestInjectedErrorsMapToTheirClass(t *testing.T) {
 
 			// (2) chains with exactly one kind
 			switch {
+			case panics:
 			case len(kinds) == 0 || (single != "" && single != "redirect"):
 				if want := o.expectedStatus(single); resp.Status != want {
 					t.Fatalf("%s: error %s (kind %q) answered with %d, expected %d (overrides %+v)", entry, ge.Desc, single, resp.Status, want, o)
@@ -403,6 +451,10 @@ func TestInjectedErrorsMapToTheirClass(t *testing.T) {
 
 		// (3) the three entry points agree
 		d, p, g := results[vkit.EntryDecision], results[vkit.EntryProxy], results[vkit.EntryGRPC]
+		if _, have := results[vkit.EntryGRPC]; !have {
+			g = d // excluded above
+		}
+
 		if d.Status != p.Status || d.Status != g.Status || d.Header.Get("Location") != g.Header.Get("Location") || d.Header.Get("Location") != p.Header.Get("Location") {
 			t.Fatalf("entry points disagree on %s: decision=%d proxy=%d grpc=%d (Location %q/%q/%q)", ge.Desc, d.Status, p.Status, g.Status,
 				d.Header.Get("Location"), p.Header.Get("Location"), g.Header.Get("Location"))
@@ -413,6 +465,7 @@ func TestInjectedErrorsMapToTheirClass(t *testing.T) {
 		vkit.S.Label(fmt.Sprintf("depth=%d", min(ge.Depth, 3)))
 		vkit.S.Label("status_class=" + strconv.Itoa(d.Status/100) + "xx")
 		vkit.S.LabelIf(o.Verbose, "verbose")
+		vkit.S.LabelIf(panics, "mechanism_panics")
 		vkit.S.LabelIf(o.Verbose && len(d.Body) != 0, "verbose_body_present")
 
 		if ge.Depth >= 2 || strings.Contains(ge.Desc, "foreign") || o != (overrides{Verbose: o.Verbose}) {
